@@ -8,7 +8,7 @@ impl<A, R> Environment<A, R> {
 }
 pub open spec fn loop_created<A, R: StrategyKind>(env: &Environment<A, R>, r: &(LoopFuture<A>, Addr<A>), stream: bool, gid: int, pre: &World, post: &World) -> bool {
     &&& !pre.slots.dom().contains(r.1.running.slot())
-    &&& *post == World { slots: pre.slots.insert(r.1.running.slot(), Slot { resolved: false, observed: false }), ..*pre }
+    &&& *post == World { slots: pre.slots.insert(r.1.running.slot(), Slot { resolved: false, observed: false, ok: false }), ..*pre }
     &&& !r.1.running.consumed()
     &&& r.0.info() == LoopInfo { slot: r.1.running.slot(), kind: R::kind(), stream: stream, timeout: env.cfg().timeout, fail_on_timeout: env.cfg().fail_on_timeout, cap: env.cap(), gid: gid }
 }
